@@ -1799,6 +1799,135 @@ Proof.
     pose proof (in_sum_le param_size sig x Hx). unfold psum in Hlen. lia.
 Qed.
 
+(* ---- number literals: every valid binary64 value survives D<16 hex digits> ---- *)
+Lemma hex_digit_val d : 0 <= d < 16 -> hex_val (hex_digit d) = Some d.
+Proof.
+  intros H.
+  assert (Hc : d = 0 \/ d = 1 \/ d = 2 \/ d = 3 \/ d = 4 \/ d = 5 \/ d = 6 \/ d = 7 \/ d = 8 \/ d = 9
+               \/ d = 10 \/ d = 11 \/ d = 12 \/ d = 13 \/ d = 14 \/ d = 15) by lia.
+  repeat (destruct Hc as [->|Hc]; [reflexivity|]). subst; reflexivity.
+Qed.
+
+Lemma hex_digits_value n : forall z acc a, 0 <= z ->
+  Z_of_hex_acc (hex_of_Z_digits n z acc) a = Z_of_hex_acc acc (a * 16 ^ Z.of_nat n + z mod 16 ^ Z.of_nat n).
+Proof.
+  induction n as [|n IH]; intros z acc a Hz.
+  - simpl. rewrite Z.mod_1_r. f_equal. lia.
+  - cbn [hex_of_Z_digits]. rewrite IH by (apply Z.div_pos; lia).
+    cbn [Z_of_hex_acc]. rewrite hex_digit_val by (apply Z.mod_pos_bound; lia).
+    f_equal. rewrite Nat2Z.inj_succ, Z.pow_succ_r by lia.
+    rewrite (Z.rem_mul_r z 16 (16 ^ Z.of_nat n)) by lia. lia.
+Qed.
+
+Lemma hex_digits_len n : forall z acc, slen (hex_of_Z_digits n z acc) = (n + slen acc)%nat.
+Proof.
+  induction n as [|n IH]; intros z acc; [reflexivity|]. cbn [hex_of_Z_digits]. rewrite IH. simpl. lia.
+Qed.
+
+Lemma Z_of_hex16 z : 0 <= z < 2 ^ 64 -> Z_of_hex (hex16_of_Z z) = Some z /\ slen (hex16_of_Z z) = 16%nat.
+Proof.
+  intros Hz. unfold Z_of_hex, hex16_of_Z. rewrite hex_digits_value, hex_digits_len by lia.
+  split; [|reflexivity]. simpl Z_of_hex_acc. f_equal.
+  change (16 ^ Z.of_nat 16) with (2 ^ 64). rewrite Z.mod_small by lia. lia.
+Qed.
+
+Lemma digits2_pos_bounds m :
+  2 ^ (Zpos (digits2_pos m) - 1) <= Zpos m < 2 ^ Zpos (digits2_pos m).
+Proof.
+  induction m as [p IH|p IH|]; cbn [digits2_pos].
+  - rewrite Pos2Z.inj_succ. replace (Z.succ (Zpos (digits2_pos p)) - 1) with (Z.succ (Zpos (digits2_pos p) - 1)) by lia.
+    rewrite !Z.pow_succ_r by lia. lia.
+  - rewrite Pos2Z.inj_succ. replace (Z.succ (Zpos (digits2_pos p)) - 1) with (Z.succ (Zpos (digits2_pos p) - 1)) by lia.
+    rewrite !Z.pow_succ_r by lia. lia.
+  - simpl. lia.
+Qed.
+
+Lemma f_of_bits_of_f x : valid_f64 x = true ->
+  0 <= bits_of_f x < 2 ^ 64 /\ f_of_bits (bits_of_f x) = x.
+Proof.
+  destruct x as [s|s| |s m e]; intros Hv.
+  - destruct s; vm_compute; repeat split; congruence.
+  - destruct s; vm_compute; repeat split; congruence.
+  - vm_compute; repeat split; congruence.
+  - unfold valid_f64, valid_binary, bounded, canonical_mantissa, fexp, emin in Hv.
+    apply andb_true_iff in Hv as [Hc He].
+    apply Zeq_bool_eq in Hc. apply Z.leb_le in He.
+    unfold prec, emax in *.
+    pose proof (digits2_pos_bounds m) as Hd.
+    set (d := Zpos (digits2_pos m)) in *.
+    assert (Hcase : (d = 53 /\ -1074 <= e) \/ (d < 53 /\ e = -1074)) by lia.
+    clear Hc.
+    destruct Hcase as [[Hd53 Hge]|[Hlt Heq]].
+    + rewrite Hd53 in Hd. change (2 ^ (53 - 1)) with 4503599627370496 in Hd.
+      change (2 ^ 53) with 9007199254740992 in Hd.
+      assert (Hm : (Zpos m <? 2 ^ 52) = false) by (change (2 ^ 52) with 4503599627370496; lia).
+      unfold bits_of_f. rewrite Hm.
+      set (z := (if s then 2 ^ 63 else 0) + ((e + 1075) * 2 ^ 52 + (Zpos m - 2 ^ 52))).
+      assert (Hz : 0 <= z < 2 ^ 64).
+      { unfold z. change (2 ^ 63) with 9223372036854775808. change (2 ^ 64) with 18446744073709551616.
+        change (2 ^ 52) with 4503599627370496. destruct s; lia. }
+      split; [exact Hz|].
+      unfold f_of_bits. rewrite (Z.mod_small z) by exact Hz.
+      assert (Hs : (2 ^ 63 <=? z) = s).
+      { unfold z. change (2 ^ 63) with 9223372036854775808. change (2 ^ 52) with 4503599627370496.
+        destruct s; lia. }
+      assert (Hex : (z / 2 ^ 52) mod 2048 = e + 1075).
+      { unfold z. change (2 ^ 63) with (2048 * 2 ^ 52). 
+        replace ((if s then 2048 * 2 ^ 52 else 0) + ((e + 1075) * 2 ^ 52 + (Zpos m - 2 ^ 52)))
+          with ((Zpos m - 2 ^ 52) + ((if s then 2048 else 0) + (e + 1075)) * 2 ^ 52) by (destruct s; lia).
+        rewrite Z.div_add by (change (2 ^ 52) with 4503599627370496; lia).
+        rewrite (Z.div_small (Zpos m - 2 ^ 52)) by (change (2 ^ 52) with 4503599627370496; lia).
+        destruct s.
+        - replace (0 + (2048 + (e + 1075))) with ((e + 1075) + 1 * 2048) by lia.
+          rewrite Z.mod_add by lia. apply Z.mod_small. lia.
+        - apply Z.mod_small. lia. }
+      assert (Hmx : z mod 2 ^ 52 = Zpos m - 2 ^ 52).
+      { unfold z. change (2 ^ 63) with (2048 * 2 ^ 52).
+        replace ((if s then 2048 * 2 ^ 52 else 0) + ((e + 1075) * 2 ^ 52 + (Zpos m - 2 ^ 52)))
+          with ((Zpos m - 2 ^ 52) + ((if s then 2048 else 0) + (e + 1075)) * 2 ^ 52) by (destruct s; lia).
+        rewrite Z.mod_add by (change (2 ^ 52) with 4503599627370496; lia).
+        apply Z.mod_small. change (2 ^ 52) with 4503599627370496. lia. }
+      rewrite Hs, Hex, Hmx.
+      replace (e + 1075 =? 0) with false by lia. replace (e + 1075 =? 2047) with false by lia.
+      replace (Zpos m - 2 ^ 52 + 2 ^ 52) with (Zpos m) by lia.
+      f_equal. lia.
+    + subst e.
+      assert (Hm52 : Zpos m < 2 ^ 52).
+      { destruct Hd as [_ Hd]. eapply Z.lt_le_trans; [exact Hd|]. apply Z.pow_le_mono_r; lia. }
+      assert (Hm : (Zpos m <? 2 ^ 52) = true) by lia.
+      unfold bits_of_f. rewrite Hm.
+      set (z := (if s then 2 ^ 63 else 0) + Zpos m).
+      change (2 ^ 52) with 4503599627370496 in Hm52.
+      assert (Hz : 0 <= z < 2 ^ 64).
+      { unfold z. change (2 ^ 63) with 9223372036854775808. change (2 ^ 64) with 18446744073709551616.
+        destruct s; lia. }
+      split; [exact Hz|].
+      unfold f_of_bits. rewrite (Z.mod_small z) by exact Hz.
+      assert (Hs : (2 ^ 63 <=? z) = s).
+      { unfold z. change (2 ^ 63) with 9223372036854775808. destruct s; lia. }
+      assert (Hex : (z / 2 ^ 52) mod 2048 = 0).
+      { unfold z. change (2 ^ 63) with (2048 * 2 ^ 52).
+        replace ((if s then 2048 * 2 ^ 52 else 0) + Zpos m)
+          with (Zpos m + (if s then 2048 else 0) * 2 ^ 52) by (destruct s; lia).
+        rewrite Z.div_add by (change (2 ^ 52) with 4503599627370496; lia).
+        rewrite (Z.div_small (Zpos m)) by (change (2 ^ 52) with 4503599627370496; lia).
+        destruct s; reflexivity. }
+      assert (Hmx : z mod 2 ^ 52 = Zpos m).
+      { unfold z. change (2 ^ 63) with (2048 * 2 ^ 52).
+        replace ((if s then 2048 * 2 ^ 52 else 0) + Zpos m)
+          with (Zpos m + (if s then 2048 else 0) * 2 ^ 52) by (destruct s; lia).
+        rewrite Z.mod_add by (change (2 ^ 52) with 4503599627370496; lia).
+        apply Z.mod_small. change (2 ^ 52) with 4503599627370496. lia. }
+      rewrite Hs, Hex, Hmx. reflexivity.
+Qed.
+
+Theorem rD_wD x : valid_f64 x = true -> rD (wD x) = Some x.
+Proof.
+  intros Hv. destruct (f_of_bits_of_f x Hv) as [Hr Hf].
+  destruct (Z_of_hex16 (bits_of_f x) Hr) as [Hh Hl].
+  unfold rD, wD. rewrite Hl, Hh. simpl. now rewrite Hf.
+Qed.
+
 (* ---- nodes ---- *)
 Definition numQ (n : node) : Prop := match n with NNumber x => rD (wD x) = Some x | _ => True end.
 (* every number literal of the tree survives the D<16 hex digits> encoding *)
@@ -2072,4 +2201,15 @@ Example node_of_wire_to_wire_ex :
   num_ok n /\ node_to_wire n = "Path L2 Name S612062 F Pred Name S T L2 Num D3ff0000000000000 Str S20 T".
 Proof. split; [vm_compute; tauto|vm_compute; reflexivity]. Qed.
 
+(* in particular for every tree whose number literals are valid binary64 values *)
+Definition valid_nums : node -> Prop :=
+  all_nodes (fun n => match n with NNumber x => valid_f64 x = true | _ => True end).
+
+Corollary node_of_wire_to_wire_valid n : valid_nums n -> node_of_wire (node_to_wire n) = Some n.
+Proof.
+  intros H. apply node_of_wire_to_wire. revert H. apply all_nodes_impl.
+  intros [] Hm; simpl; auto. apply rD_wD. exact Hm.
+Qed.
+
 Print Assumptions node_of_wire_to_wire.
+Print Assumptions node_of_wire_to_wire_valid.
